@@ -170,6 +170,19 @@ CHECKS['C20'] = dict(
     technique="TLA+ spectral-certificate model enumerated by TLC and replayed into code, TLC trace validation in exact dyadic arithmetic",
     ref="DESIGN.md section 5 C20")
 
+CHECKS['C19'] = dict(
+    text=("TLC exhausts MC_Geometry on an integer grid: the scatter matrix (hence the Covariance / RCA metric) is invariant "
+          "under translation and sample permutation, conjugated by orthogonal maps and scaled by c^2 under scaling; the "
+          "pair statistic used by the tuple objectives is invariant under translation and within-pair swap. "
+          "Conformance: for every (relation, estimator) combination the statement lists, two real fits (original and "
+          "exactly transformed dyadic-grid data) and the learned distances on corresponding query pairs are recorded; "
+          "TLC (TR_Geometry) checks equality / 1/c scaling of the distances and M' = Q M Q^T with Q verified orthogonal."),
+    note=("Tolerance 2^-15 relative (the two fits run the same arithmetic on inputs differing in the last bits; iterative "
+          "learners are run with few iterations). Orthogonal maps are sampled from signed permutations and Hadamard "
+          "blocks (exactly representable). SDML cases whose solver raises RuntimeError (allowed by C13) are redrawn."),
+    technique="TLA+ transformation/relation definitions model-checked on a grid + TLC trace validation of paired real fits",
+    ref="DESIGN.md section 5 C19")
+
 NOT_YET = {}
 
 def main():
